@@ -237,6 +237,8 @@ TEMPLATES = [
     "x = nn\nx[zero].push(a)\nnn[zero]",
     "acc = [[a]]\nacc += nn\nacc[one].push(b)\nnn",
     "d2 = {'k': nn}\nd2['k'][zero].push(c)\nnn",
+    "x = a\ng = y => x + y\nf = x => g(zero)\nf(b)",
+    "len = v => a\nf = l => len(l)\n[f(nn), l | map(v => len(v)) | sum]",
 ]
 if isinstance(hlib.PARAM, dict) and "t" in hlib.PARAM:
     prewarm(TEMPLATES[hlib.PARAM["t"]])
